@@ -564,6 +564,7 @@ func siteSig(id int32) string {
 
 // newExecution builds fresh state: a fresh parse of the shared statement, fresh threads.
 func newExecution(sc scenario, bs []*c17b.Body, prefix []int, conflict map[int]bool) *execution {
+	c17b.Reset()
 	st, err := influxql.ParseStatement(c17b.SharedTexts[sc.shared])
 	if err != nil {
 		panic("shared text does not parse: " + err.Error())
@@ -582,6 +583,7 @@ func newExecution(sc scenario, bs []*c17b.Body, prefix []int, conflict map[int]b
 }
 
 func soloResult(b *c17b.Body, shared int) (res string, panicV interface{}) {
+	c17b.Reset()
 	st, _ := influxql.ParseStatement(c17b.SharedTexts[shared])
 	en := &c17b.Env{Shared: st, Sel: c17b.SelOf(st)}
 	defer func() {
